@@ -80,4 +80,49 @@ Section Window.
       with (S (S (Nat.min (length p + S (S (length q))) (i + nn + 2) - (i - nn - 1) - length p' - 2))) by lia.
     cbn [firstn]. apply pairs_app_mid.
   Qed.
+
+  (* general form: a consecutive pair at position j lies in the slice [start, stop) *)
+  Lemma slice_has (p q : list num) a b start stop :
+    start <= length p -> length p + 2 <= stop ->
+    In (a, b) (pairs (firstn (stop - start) (skipn start (p ++ a :: b :: q)))).
+  Proof.
+    intros Hs Ht. rewrite (skipn_app_le _ (a :: b :: q) Hs).
+    set (p' := skipn start p).
+    assert (Hp' : length p' = length p - start) by (unfold p'; apply skipn_length).
+    rewrite firstn_app_ge; [|lia].
+    replace (stop - start - length p') with (S (S (stop - start - length p' - 2))) by lia.
+    cbn [firstn]. apply pairs_app_mid.
+  Qed.
+
+  (* nth_error in p ++ x :: q versus p ++ q *)
+  Lemma nth_error_app_left (p q : list num) j : j < length p -> nth_error (p ++ q) j = nth_error p j.
+  Proof. intros H. apply nth_error_app1. exact H. Qed.
+
+  Lemma nth_error_insert_right (p q : list num) x m :
+    nth_error (p ++ x :: q) (length p + 1 + m) = nth_error (p ++ q) (length p + m).
+  Proof.
+    rewrite !nth_error_app2 by lia.
+    replace (length p + 1 + m - length p) with (S m) by lia.
+    replace (length p + m - length p) with m by lia. reflexivity.
+  Qed.
+
+  Lemma index_of_app_right (p : list num) x q : ~ In x p -> index_of x (p ++ q) = length p + index_of x q.
+  Proof.
+    induction p as [|c p IH]; cbn [app L1D.index_of length In]; intros Hn; [reflexivity|].
+    destruct (eqb x c) eqn:E; [apply eqb_eq in E; subst; tauto|]. cbn. f_equal. apply IH. tauto.
+  Qed.
+
+  Lemma index_of_lt (l : list num) x : In x l -> index_of x l < length l.
+  Proof.
+    induction l as [|c l IH]; cbn [In L1D.index_of length]; [tauto|].
+    destruct (eqb x c) eqn:E; [lia|]. intros [->|H]; [rewrite (proj2 (eqb_eq x x) eq_refl) in E; discriminate|].
+    specialize (IH H). lia.
+  Qed.
+
+  Lemma nth_index_of (l : list num) x : In x l -> nth_error l (index_of x l) = Some x.
+  Proof.
+    induction l as [|c l IH]; cbn [In L1D.index_of]; [tauto|].
+    destruct (eqb x c) eqn:E; [apply eqb_eq in E; subst; reflexivity|].
+    intros [->|H]; [rewrite (proj2 (eqb_eq x x) eq_refl) in E; discriminate|]. cbn [nth_error]. auto.
+  Qed.
 End Window.
